@@ -32,6 +32,11 @@ impl Byte {
     ) -> io::Result<Cow<'de, [u8]>> {
         match self {
             Self::External { block_content_id } => {
+                // Series that receive no bytes have no block.
+                if len == 0 {
+                    return Ok(Cow::from(&[][..]));
+                }
+
                 let src = external_data_readers
                     .get_mut(block_content_id)
                     .ok_or_else(|| {
